@@ -105,6 +105,14 @@ func Lookalikes(level int) []*tv.Package {
 	add("named/slice-elem-assign", "func FN(x uint64) uint64 {\n\tl := make(List, 2)\n\tl[1] = x\n\treturn l[1]\n}")
 	add("named/slice-empty-literal", "func FN() uint64 {\n\tl := List{}\n\treturn uint64(len(l))\n}")
 	add("named/slice-singleton-literal", "func FN(x uint64) uint64 {\n\tl := List{x}\n\treturn l[0]\n}")
+	add("generic/struct-method", "type FNBox[T any] struct {\n\tv T\n}\n\nfunc (b *FNBox[T]) Get() T {\n\treturn b.v\n}\n\nfunc FN(x uint64) uint64 {\n\tb := &FNBox[uint64]{v: x}\n\treturn b.Get()\n}")
+	add("generic/func", "func FNid[T any](x T) T {\n\treturn x\n}\n\nfunc FN(x uint64) uint64 {\n\treturn FNid[uint64](x) + FNid(x)\n}")
+	add("const/float", "const FNLoad = 0.75\n\nfunc FN(x uint64) uint64 {\n\treturn x\n}")
+	add("const/untyped-string", "const FNs = \"ab\"\n\nfunc FN() string {\n\treturn FNs\n}")
+	add("const/iota-group", "const (\n\tFNa uint64 = iota\n\tFNb\n\tFNc\n)\n\nfunc FN() uint64 {\n\treturn FNa + FNb*10 + FNc*100\n}")
+	add("var/global-with-call", "var FNg = FNmk()\n\nfunc FNmk() uint64 {\n\treturn 3\n}\n\nfunc FN() uint64 {\n\treturn FNg\n}")
+	add("type/func-type", "type FNfn func(uint64) uint64\n\nfunc FN(f FNfn, x uint64) uint64 {\n\treturn f(x)\n}")
+	add("type/chan", "func FN(x uint64) uint64 {\n\tc := make(chan uint64, 1)\n\tc <- x\n\treturn <-c\n}")
 	add("builtin/cap-of-make", "func FN() uint64 {\n\ta := make([]uint64, 2)\n\treturn uint64(cap(a))\n}")
 	add("builtin/new-basic", "func FN(x uint64) uint64 {\n\tp := new(uint64)\n\t*p = x\n\treturn *p\n}")
 	add("builtin/delete-missing", "func FN(m map[uint64]uint64) uint64 {\n\tdelete(m, 5)\n\tdelete(m, 5)\n\treturn uint64(len(m))\n}")
